@@ -1031,6 +1031,67 @@ out:
 }
 #define N_R7 (2 * 2)
 
+/* ---- R8: values proportional to frequency, read at sums of knots ------ */
+/*
+ * A tabulated value proportional to frequency is a rational function of the
+ * lowest order there is, and is read back at every frequency that is the sum
+ * of two knot frequencies (where a lower-order member of the interpolation
+ * tableau has a pole although the result has none), and next to it.
+ */
+#define N_R8 3
+static void run_r8(int which, vf_result *r)
+{
+    static const double grid[3][5] = {
+	{ 1.0e9, 2.5e9, 4.0e9, 5.5e9, 7.0e9 },
+	{ 1.0e9, 1.5e9, 2.5e9, 4.5e9, 8.5e9 },
+	{ 2.0e9, 3.0e9, 7.0e9, 8.0e9, 9.5e9 } };
+    const double *fk = grid[which];
+    double complex gk[5];
+    vnacal_t *vcp;
+    int p, nq = 0;
+
+    vf_desc(r, "R8 vector parameter 1e-10 f (1+0.5j) on the knots %g, %g, "
+	    "%g, %g, %g Hz, read at every sum of two knots inside the range "
+	    "and 1 %% beside it", fk[0], fk[1], fk[2], fk[3], fk[4]);
+    vf_errlog_reset(&elog);
+    vcp = vnacal_create((vnaerr_error_fn_t *)vf_errfn, &elog);
+    for (int i = 0; i < 5; ++i)
+	gk[i] = 1e-10 * fk[i] * (1.0 + 0.5 * I);
+    p = vcp ? vnacal_make_vector_parameter(vcp, fk, 5, gk) : -1;
+    if (p < 0) {
+	vf_fail(r, "r8:setup", "set-up failed");
+	if (vcp) vnacal_free(vcp);
+	return;
+    }
+    for (int a = 0; a < 5 && r->status == VF_OK; ++a)
+	for (int b = a; b < 5 && r->status == VF_OK; ++b)
+	    for (int side = -1; side <= 1; ++side) {
+		double f = (fk[a] + fk[b]) * (1.0 + 0.01 * side);
+		if (f < fk[0] || f > fk[4])
+		    continue;
+		double complex want = 1e-10 * f * (1.0 + 0.5 * I);
+		double complex got = vnacal_get_parameter_value(vcp, p, f);
+		++r->transitions;
+		++nq;
+		if (!(cabs(got - want) <= 1e-9 * cabs(want))) {
+		    vf_fail(r, "r8:value", "the value 1e-10 f (1+0.5j) "
+			    "tabulated at 5 knots reads %.9g%+.9gj at %.10g "
+			    "Hz (%s the sum of the knots %g and %g), not "
+			    "%.9g%+.9gj", creal(got), cimag(got), f,
+			    side ? "1 % beside" : "exactly", fk[a], fk[b],
+			    creal(want), cimag(want));
+		    break;
+		}
+	    }
+    (void)vnacal_delete_parameter(vcp, p);
+    vnacal_free(vcp);
+    r->nontrivial = nq > 0;
+    r->states = nq;
+    if (r->status == VF_OK)
+	vf_outcome(r, "R8 linear data read at %s", nq ? "sums of knots" :
+		"nothing");
+}
+
 /* ---- case space ------------------------------------------------------ */
 
 #define N_R0 (7 * NSPACING * NFUNC)
@@ -1046,7 +1107,8 @@ static const int grid_n[NGRIDN] = { 1, 2, 3, 4, 5, 7 };
 
 static long count(int tier)
 {
-    return N_R0 + N_R1 + n_r2(tier) + N_R3 + N_R4 + N_R5 + N_R6 + N_R7;
+    return N_R0 + N_R1 + n_r2(tier) + N_R3 + N_R4 + N_R5 + N_R6 + N_R7
+	+ N_R8;
 }
 
 static void run(int tier, long idx, vf_result *r)
@@ -1077,6 +1139,8 @@ static void run(int tier, long idx, vf_result *r)
 	int fn = vf_digit(&idx, 2);
 	int sp = vf_digit(&idx, NSPACING);
 	run_r4(grid_n[idx], sp, fn, ov, r);
+    } else if (idx - N_R4 >= N_R5 + N_R6 + N_R7) {
+	run_r8((int)(idx - N_R4 - N_R5 - N_R6 - N_R7), r);
     } else if (idx - N_R4 >= N_R5 + N_R6) {
 	idx -= N_R4 + N_R5 + N_R6;
 	int pending = vf_digit(&idx, 2);
